@@ -225,6 +225,12 @@ func init() {
 			m.runThreads(th)
 			return nil
 		},
+		rtPkg + ".Deadlocked": func(m *Machine, th *Thread, _ *Frame, a []Value, _ ssa.Value) Value {
+			if v, ok := m.side["deadlock"]; ok {
+				return v
+			}
+			return False
+		},
 		rtPkg + ".ThreadID": func(m *Machine, th *Thread, _ *Frame, a []Value, _ ssa.Value) Value {
 			return BVC(64, uint64(th.id))
 		},
